@@ -104,6 +104,7 @@ type sched struct {
 	conds   PMap[*sync.Cond, *condState]
 	closed  U64Map[bool]
 	keep    []interface{}
+	fins    []interface{} // objects with a finalizer (recorded, not armed)
 	rvs     U64Map[*rendezvous]
 	chans   U64Map[drainer]
 	pools   PMap[*sync.Pool, *poolState]
@@ -448,6 +449,42 @@ func Gosched() {
 		return
 	}
 	runtime.Gosched()
+}
+
+// SetFinalizer stands for runtime.SetFinalizer in instrumented code.  Inside a
+// run nothing is armed for real - when the collector would run a finalizer is
+// not something a tape can replay - but the run remembers which objects have
+// one (fn == nil disarms), so that a harness can reason about what the
+// collector would be entitled to do.
+//
+//go:norace
+func SetFinalizer(obj interface{}, fn interface{}) {
+	s := act
+	if s == nil {
+		runtime.SetFinalizer(obj, fn)
+		return
+	}
+	for i, o := range s.fins {
+		if o == obj {
+			if fn == nil {
+				s.fins = RemoveAt(Clone(s.fins), i)
+			}
+			return
+		}
+	}
+	if fn != nil {
+		s.fins = Push(s.fins, obj)
+	}
+}
+
+// ArmedFinalizers returns the objects that carry a finalizer right now.
+//
+//go:norace
+func ArmedFinalizers() []interface{} {
+	if s := act; s != nil {
+		return Clone(s.fins)
+	}
+	return nil
 }
 
 // Block parks the current task until pred holds.  pred is evaluated by the
